@@ -347,9 +347,15 @@ func runMix(run *rep.Run, m mix, id int) {
 		}
 		w.ForceHealth()
 	}
-	// translator statistics
-	resp, err := hc.Get(w.Base + "/internal/stats/translators")
-	if err == nil {
+	// translator statistics (recorded after the response has been handed over: bounded wait)
+	var last string
+	var sPT, sTR, sTot int64
+	got := false
+	for try := 0; try < 60; try++ {
+		resp, err := hc.Get(w.Base + "/internal/stats/translators")
+		if err != nil {
+			break
+		}
 		b, _ := io.ReadAll(resp.Body)
 		resp.Body.Close()
 		var st struct {
@@ -360,17 +366,25 @@ func runMix(run *rep.Run, m mix, id int) {
 				Tot  int64  `json:"total_requests"`
 			} `json:"translators"`
 		}
-		if json.Unmarshal(b, &st) == nil {
-			run.Count("stats_compared", 1)
-			var pt, tr, tot int64
-			for _, t := range st.Translators {
-				pt += t.PT
-				tr += t.TR
-				tot += t.Tot
-			}
-			if pt != wantPT || tr != wantTR || tot != wantPT+wantTR {
-				run.Violation("C14/translator-stats-mismatch", fmt.Sprintf("stats say passthrough=%d translation=%d total=%d; harness tally passthrough=%d translation=%d", pt, tr, tot, wantPT, wantTR), map[string]any{"mix": m, "stats": string(b)})
-			}
+		if json.Unmarshal(b, &st) != nil {
+			break
+		}
+		got, last = true, string(b)
+		sPT, sTR, sTot = 0, 0, 0
+		for _, t := range st.Translators {
+			sPT += t.PT
+			sTR += t.TR
+			sTot += t.Tot
+		}
+		if sPT == wantPT && sTR == wantTR && sTot == wantPT+wantTR {
+			break
+		}
+		time.Sleep(50 * time.Millisecond)
+	}
+	if got {
+		run.Count("stats_compared", 1)
+		if sPT != wantPT || sTR != wantTR || sTot != wantPT+wantTR {
+			run.Violation("C14/translator-stats-mismatch", fmt.Sprintf("3 s after the last response the stats say passthrough=%d translation=%d total=%d; harness tally passthrough=%d translation=%d", sPT, sTR, sTot, wantPT, wantTR), map[string]any{"mix": m, "stats": last})
 		}
 	}
 }
